@@ -69,6 +69,15 @@ def site_toggle(rng, on=None):
     return [I(rng.choice(["exit_on_error", "set_exit_on_error"]), [v], rng.choice([None, "t"]))]
 
 
+def site_set_error(rng, libs):
+    """set_error, the message / source / mode it leaves, then at once a failing command: the line set_error
+    records is the instruction *index*, which the flattened model program does not preserve, so nothing reads
+    get_last_error_line before the next error overwrites it (or, with exit_on_error on, ends the run)"""
+    err, cat = site_error(rng, libs)
+    return [I("set_error", [rng.choice(["sm", "set msg", "m1"])], rng.choice([None, "x"])),
+            I("get_last_error", [], "e"), I("get_last_error_source", [], "s"), I("hsnap", ["e", "s", "x", "t"])] + err
+
+
 def site_direct(rng):
     return [I("on_error", rng.choice([["dmsg", "99", "dsrc"], ["dmsg"], ["dmsg", "5"], ["dmsg", "7", "src", "extra"]]),
               rng.choice([None, "x"]))]
@@ -90,6 +99,11 @@ def gen_block(rng, depth, libs, funcs, stats, allow_exit):
             out.append(("site", site_toggle(rng)))
         elif r < 0.63:
             out.append(("site", site_direct(rng)))
+        elif r < 0.68:
+            stats["set_error_sites"] = stats.get("set_error_sites", 0) + 1
+            out.append(("site", site_set_error(rng, libs)))
+            if rng.random() < 0.7:
+                out.append(("site", site_query()))
         elif r < 0.74 and depth < 3:
             b = rng.random() < 0.6
             out.append(("if", b, gen_block(rng, depth + 1, libs, funcs, stats, allow_exit),
@@ -257,12 +271,17 @@ def placements(libs):
     uid = 0
     for e in errs:
         for ctx in ("top", "fn", "loop", "branch", "else", "include", "fn-loop-branch", "twice"):
-            for exit_on in (False, True, "toggled"):
+            for exit_on in (False, True, "toggled", "on+set_error", "off+set_error"):
                 def fresh():
                     return dict(e)
                 pre = [("site", [I("hfail", ["earlier"], None)]), ("site", site_query())]
                 if exit_on is True:
                     pre.append(("site", [I("exit_on_error", ["true"], "t")]))
+                elif exit_on in ("on+set_error", "off+set_error"):
+                    if exit_on == "on+set_error":
+                        pre.append(("site", [I("exit_on_error", ["true"], "t")]))
+                    pre.append(("site", [I("set_error", ["sm"], None), I("get_last_error", [], "e"), I("get_last_error_source", [], "s"),
+                                         I("hsnap", ["e", "s", "t"])]))
                 elif exit_on == "toggled":
                     pre += [("site", [I("exit_on_error", ["true"], "t")]), ("site", [I("exit_on_error", ["false"], "t")])]
                 core = [("site", [fresh()]), ("site", site_query())]
@@ -291,10 +310,12 @@ def placements(libs):
 
 
 def sequences(n):
-    """every sequence of <= n top-level sites over a 6-letter alphabet"""
+    """every sequence of <= n top-level sites over a 7-letter alphabet (straight-line: instruction index = line - 1,
+    so set_error's recorded line is compared exactly; the model program gets one padding instruction for the alias line)"""
     alpha = [lambda: [I("trigger_error", ["m1"], "x")], lambda: [I("hfail", ["m2"], "y")], site_query,
              lambda: [I("exit_on_error", ["true"], "t")], lambda: [I("exit_on_error", ["false"], "t")],
-             lambda: [I("get_last_error_line", [], "l"), I("hsnap", ["l", "x", "y"])]]
+             lambda: [I("get_last_error_line", [], "l"), I("hsnap", ["l", "x", "y"])],
+             lambda: [I("set_error", ["sm"], "x")]]
     out = []
     for k in range(1, n + 1):
         for combo in itertools.product(range(len(alpha)), repeat=k):
@@ -379,6 +400,8 @@ def run(ck):
         m_lines, i_lines, texts = [], [], []
         for main, fdefs, src, kind in cases:
             text, files, executed = build(main, fdefs, src, rng if kind == "random" else None)
+            if kind == "sequence":
+                executed = [{"cmd": None, "args": [], "out": None, "meta": (1, src)}] + executed
             m_lines.append(model_line(executed, fails))
             i_lines.append(impl_line(text, files, src))
             texts.append((text, files, executed))
@@ -455,7 +478,7 @@ def run(ck):
         "rule": "every error kind (trigger_error, assert_error, harness command, eval-implemented alias, calibrated failing library and "
                 "script-implemented commands) x 8 placements (top level, function body, loop body, taken branch, else branch, included file, "
                 "function+loop+branch called twice, followed by a later error) x exit_on_error off / on / toggled x text / file (%d cases); "
-                "every sequence of <= %d top-level sites over 6 site kinds (%d); %d random structured programs (<= 3 functions, nesting <= 3, "
+                "every sequence of <= %d top-level sites over 7 site kinds incl. set_error (%d); %d random structured programs (<= 3 functions, nesting <= 3, "
                 "includes, direct on_error calls, exit_on_error toggles in 35%%, 40%% from file); non-trivial = distinct program executing >= 2 "
                 "failing commands (or a placement case)" % (n_place, 5 if thorough else 4, n_seq, n_rand),
         "exhaustive": True,
@@ -470,6 +493,7 @@ def run(ck):
     ck.report_broken(found)
     ck.assumptions += [
         "error messages, sources and arguments contain no '$', '%' or backslash: the runner binds the synthetic on_error instruction's arguments like any others, so such messages are re-expanded (reported as a finding, outside the compared domain)",
+        "the line set_error records (the instruction index) is compared exactly only in the straight-line sequence family; in structured programs set_error is always followed at once by a failing command, so only its message, the cleared source and the exit_on_error behaviour after it are compared",
         "commands other than on_error / set_error do not write the last-error record (hypothesis of C10_latest; true of the SDK by inspection of the state key's users)",
         "the control-flow path of generated programs is computed by the generator (constant conditions, fixed iteration counts)",
         "messages of failing library commands are taken from the implementation (calibration run), so a change of wording is not reported",
